@@ -70,6 +70,14 @@ def compare(ref, par, known_fn):
     return out
 
 
+def div_key(op, field):
+    key = {"clause": "par_differs_from_ser", "op_kind": gen.op_kind(op), "field": field}
+    if key["op_kind"] == "levelset":
+        a = op.split(":")[1].split(",") if ":" in op else []
+        key["sdf"] = str(int(a[2]) % 3) if len(a) > 2 else "0"
+    return key
+
+
 BIG_PREFIX = ["sphere:500,66", "sphere:700,66", "rot:1,123,456,789", "cube:500,500,500,1"]
 
 
@@ -179,7 +187,7 @@ class C04(Check):
                     whist[str(j["args"]["W"])] = whist.get(str(j["args"]["W"]), 0) + 1
                     divs = compare(ref[1]["res"], r["res"], None)
                     for (step, op, field) in divs:
-                        key = {"clause": "par_differs_from_ser", "op_kind": gen.op_kind(op), "field": field}
+                        key = div_key(op, field)
                         replay = {"property": "C04", "program": gen.prog_text(case["ops"]), "lazy": case["lazy"],
                                   "par_args": {k: j["args"][k] for k in ("W", "stay", "own", "seed", "thr")},
                                   "maxtri": j["args"]["maxtri"], "arm": case["arm"]}
@@ -277,12 +285,12 @@ class C04(Check):
         divs = compare(ref["res"], par["res"], None)
         exp = replay.get("expect")
         for (s, o, f) in divs:
-            k = {"clause": "par_differs_from_ser", "op_kind": gen.op_kind(o), "field": f}
+            k = div_key(o, f)
             if exp is None or key_str(k) == key_str(exp):
                 return k, par["res"]["sim"]["hash"]
         if divs:
             s, o, f = divs[0]
-            return {"clause": "par_differs_from_ser", "op_kind": gen.op_kind(o), "field": f}, par["res"]["sim"]["hash"]
+            return div_key(o, f), par["res"]["sim"]["hash"]
         return None, par["res"]["sim"]["hash"]
 
     def minimise(self, finding):
